@@ -598,8 +598,15 @@ def gen_grids(rng, tier):
             g = malformed_grid(rng)
         elif r < 0.8:
             g = gen.raster(rng, 2, 5 if tier == "quick" else 8)
+            if rng.random() < 0.3 and not getattr(g, "length", None):
+                # "for every spacing": tiny, huge, strongly anisotropic and nearly-square cells (a
+                # diagonal shortcut for `|dx - dy| <= 1e-6` is right for every ordinary spacing)
+                g.dy, g.dx = rng.choice([(1e-6, 1.5e-6), (4e-7, 1e-7), (1e7, 2.5e6), (1000.0, 1.0), (1.0, 1.0 + 1e-7),
+                                         (3e-9, 3e-9), (1.0, 1e-3), (2.5e5, 2.5e5 + 0.5)])
         else:
             g = gen.profile(rng, 2, 12 if tier == "quick" else 30)
+            if rng.random() < 0.2 and not getattr(g, "length", None):
+                g.dx = rng.choice([1e-6, 1e7, 3e-9])
         lines = [g.line(), "grid_common"]
         lines += grid_queries(rng, g, full=(g.n <= 30))
         for w in ["all", "c", "v", "g", "l"]:
@@ -684,9 +691,9 @@ register("C07", lean_modules=["FsProofs.Properties.ShapesC07", "FsModel.U64", "F
          sections=GRID_SECTIONS, nontrivial=grid_nontrivial, tags=tags_grid,
          rule="random rasters/profiles (3 connectivities, border mixes incl. looped, size-2 looped axes, anisotropic spacing, cache on/off), every accessor for every node in shuffled order with repeats; thorough adds all 4^4 border mixes x shapes; non-trivial = grid accepted and queried",
          trusted_base=GRID_TB)
-register("C17", lean_modules=["FsProofs.Properties.C17Mesh", "FsProofs.Properties.ShapesC17", 'FsModel.Iter', 'FsProofs.Properties.C17'], theorems=["Fs.C17Mesh.meshStatusMap_ok_iff", "Fs.C17Mesh.meshStatusMap_error_kind", "Fs.C17Mesh.meshStatusMap_ok", "Fs.C17Mesh.meshStatusMap_ok_distinct", "Fs.C17Mesh.meshStatusArr_spec", "Fs.Shapes.source_shape_C17", 'Fs.C17.prio_order', 'Fs.C17.paint_spec', 'Fs.C17.rasterStatus_ok_iff', 'Fs.C17.rasterStatus_error_iff', 'Fs.C17.rasterStatus_error_kind', 'Fs.C17.rasterStatus_ok', 'Fs.C17.rasterStatus_ok_distinct', 'Fs.C17.profileStatus_ok_iff', 'Fs.C17.profileStatus_error_iff', 'Fs.C17.profileStatus_ok', 'Fs.C17.sortKeys_perm', 'Fs.C17.iterFwd_eq', 'Fs.C17.iterRev_eq', 'Fs.Iter.skipFwd_stop'], gen=lambda r, t: gen_grids(r, t) + gen_grids_exhaustive(r, t), oracles=[oracle.c17],
+register("C17", lean_modules=["FsProofs.Properties.C17Mesh", "FsProofs.Properties.ShapesC17", 'FsModel.Iter', 'FsProofs.Properties.C17'], theorems=["Fs.C17Mesh.meshStatusMap_ok_iff", "Fs.C17Mesh.meshStatusMap_error_kind", "Fs.C17Mesh.meshStatusMap_ok", "Fs.C17Mesh.meshStatusMap_ok_distinct", "Fs.C17Mesh.meshStatusArr_spec", "Fs.Shapes.source_shape_C17", 'Fs.C17.prio_order', 'Fs.C17.paint_spec', 'Fs.C17.rasterStatus_ok_iff', 'Fs.C17.rasterStatus_error_iff', 'Fs.C17.rasterStatus_error_kind', 'Fs.C17.rasterStatus_ok', 'Fs.C17.rasterStatus_ok_distinct', 'Fs.C17.profileStatus_ok_iff', 'Fs.C17.profileStatus_error_iff', 'Fs.C17.profileStatus_ok', 'Fs.C17.sortKeys_perm', 'Fs.C17.iterFwd_eq', 'Fs.C17.iterRev_eq', 'Fs.Iter.skipFwd_stop'], gen=lambda r, t: gen_grids(r, t) + gen_grids_exhaustive(r, t) + gen_mesh_strip_oracle_only(r), oracles=[oracle.c17, oracle.c17_mesh],
          sections={"grid", "status", "iter", "base", "size"}, nontrivial=lambda si: True, tags=tags_grid,
-         rule="all 4^4 raster / 4^2 profile border mixes on small shapes (exhaustive) + random grids with override maps + malformed stream (asymmetric loops, looped/out-of-range overrides); status array, iteration in both directions for every filter, default base levels",
+         rule="all 4^4 raster / 4^2 profile border mixes on small shapes (exhaustive) + random grids with override maps + malformed stream (asymmetric loops, looped/out-of-range overrides); + an oracle-only strip mesh of 90 000 nodes with exchanged boundary labels (mesh status = fixed value exactly on the edges of one triangle, judged by an integer-only oracle); status array, iteration in both directions for every filter, default base levels",
          trusted_base=GRID_TB)
 
 
@@ -1261,6 +1268,42 @@ _lvl("C15", "proof",
 
 # ----------------------------------------------------------------------------- C18
 
+def gen_mesh_strip_oracle_only(rng):
+    """oracle-only: a strip mesh of 3 x 30000 nodes (more than 65536 node labels) whose numbering is
+    not local - a few pairs of boundary labels far apart are exchanged, so that boundary edges join
+    labels below and above 65536 (an edge key or hash that packs two labels into fewer bits than
+    they need merges two such edges: a boundary node is then taken for an interior one)"""
+    nx, ny = 30000, 3
+    pts = [(float(i), float(j)) for j in range(ny) for i in range(nx)]
+    tris = []
+    for j in range(ny - 1):
+        for i in range(nx - 1):
+            a, b, c, d = j * nx + i, j * nx + i + 1, (j + 1) * nx + i, (j + 1) * nx + i + 1
+            tris += [(a, b, d), (a, d, c)]
+    n = nx * ny
+    perm = list(range(n))
+    pairs = [(6, 65536 + 4465), (7, 65536 + 5)]          # bottom row <-> top row
+    for _ in range(40):
+        a = rng.randrange(1, nx - 1)
+        b = 2 * nx + rng.randrange(max(1, 65536 - 2 * nx), nx - 1)
+        pairs.append((a, b))
+    used = set()
+    for a, b in pairs:
+        if a in used or b in used:
+            continue
+        used.update((a, b))
+        perm[a], perm[b] = perm[b], perm[a]
+    inv = [0] * n
+    for a, b in enumerate(perm):
+        inv[b] = a
+    g = gen.Grid("mesh", pts=[pts[inv[i]] for i in range(n)], tris=[tuple(perm[v] for v in t) for t in tris], status=None)
+    lines = [g.line(), "grid_common"]
+    for a, b in pairs[:6]:
+        lines += ["q m %d" % a, "q m %d" % b]
+    lines += ["iter v fwd", "iter c rev", "graph single"]
+    return [("ob_strip", lines)]
+
+
 def gen_meshes(rng, tier):
     out = []
     for k in range(counts(tier, 200, 2000)):
@@ -1287,6 +1330,11 @@ def gen_meshes(rng, tier):
                 inv[b] = a
             g.pts = [g.pts[inv[i]] for i in range(len(perm))]
             g.tris = [tuple(perm[v] for v in t) for t in g.tris]
+        if rng.random() < 0.25:
+            # cell size: the statements hold for every coordinate scale (an absolute "degenerate
+            # triangle" tolerance of 1e-12 is invisible for unit cells and wrong for cells of 1e-7)
+            sc = rng.choice([1e-7, 1e-4, 1e5])
+            g.pts = [(x * sc, y * sc) for (x, y) in g.pts]
         lines = [g.line(), "grid_common"]
         qs = []
         for i in range(len(g.pts)):
@@ -1298,6 +1346,10 @@ def gen_meshes(rng, tier):
             lines.append("iter %s fwd" % w)
         lines.append("graph single")
         out.append(("t%d" % k, lines))
+    if tier == "thorough":
+        # (quick tier: the strip runs under C17 with the integer-only status oracle; the exact-rational
+        # area oracle needs two minutes for its 120 000 triangles)
+        out += gen_mesh_strip_oracle_only(rng)
     return out
 
 
